@@ -4,49 +4,55 @@
 
    Weights are an abstract type W with show_w (= "{}".format(weight) = repr of a float) and read_w
    (= float(token), None = ValueError).  The graph is the pair of Python dicts
-     node_mapping : node -> set of neighbours     (list (N * list N), insertion order, sets as
+     node_mapping : node -> set of neighbours     (list (Z * list Z), insertion order, sets as
                                                    duplicate-free lists in insertion order)
-     weights      : (node, node) -> weight        (list ((N * N) * W), insertion order)
-   with the overwrite semantics of add_node / add_edge. *)
-From Coq Require Import List NArith Bool String.
-From PrefVerif Require Import Lib.Val Lib.Dec Lib.PyStr Model.Meta.
+     weights      : (node, node) -> weight        (list ((Z * Z) * W), insertion order)
+   with the overwrite semantics of add_node / add_edge.  Node ids are Python ints of either sign (Z): the writer
+   prints them with str(), the parser reads them with int(); the keys of alternatives_name stay N because the
+   header pattern (\d+) only matches unsigned ids (a negative node cannot carry a name). *)
+From Coq Require Import List NArith ZArith Bool String.
+From PrefVerif Require Import Lib.Val Lib.Dec Lib.DecZ Lib.PyStr Model.Meta.
 Import ListNotations.
 
 (* ---- sorted(list of ints): insertion sort (proved to sort in Proofs/WmdIO.v) ---- *)
-Fixpoint insert_N (x : N) (l : list N) : list N :=
+Fixpoint insert_Z (x : Z) (l : list Z) : list Z :=
   match l with
   | [] => [x]
-  | y :: r => if N.leb x y then x :: l else y :: insert_N x r
+  | y :: r => if Z.leb x y then x :: l else y :: insert_Z x r
   end.
-Fixpoint isort_N (l : list N) : list N :=
+Fixpoint isort_Z (l : list Z) : list Z :=
   match l with
   | [] => []
-  | x :: r => insert_N x (isort_N r)
+  | x :: r => insert_Z x (isort_Z r)
   end.
+
+(* int(s) on a node id: optional "-" and ASCII digits, surrounding whitespace ignored *)
+Definition py_int_Z (s : text) : result Z :=
+  match read_Z (strip s) with Some z => Ok z | None => Err ValueErr end.
 
 (* ---- node_mapping ---- *)
-Definition nmap := list (N * list N).
+Definition nmap := list (Z * list Z).
 
-Definition peqb (a b : N * N) : bool := N.eqb (fst a) (fst b) && N.eqb (snd a) (snd b).
+Definition peqb (a b : Z * Z) : bool := Z.eqb (fst a) (fst b) && Z.eqb (snd a) (snd b).
 
-Definition has_node (n : N) (g : nmap) : bool := existsb (fun p => N.eqb n (fst p)) g.
+Definition has_node (n : Z) (g : nmap) : bool := existsb (fun p => Z.eqb n (fst p)) g.
 (* self.node_mapping[n]  (KeyError is outside the domain: every use below is guarded by add_node or
    iterates over the keys) *)
-Definition nbrs (g : nmap) (n : N) : list N :=
-  match assoc_get N.eqb n g with Some s => s | None => [] end.
+Definition nbrs (g : nmap) (n : Z) : list Z :=
+  match assoc_get Z.eqb n g with Some s => s | None => [] end.
 
 (* add_node: if node not in self.node_mapping: self.node_mapping[node] = set() *)
-Definition add_node (n : N) (g : nmap) : nmap := if has_node n g then g else g ++ [(n, [])].
+Definition add_node (n : Z) (g : nmap) : nmap := if has_node n g then g else g ++ [(n, [])].
 (* set.add *)
-Definition set_add (m : N) (s : list N) : list N := if existsb (N.eqb m) s then s else s ++ [m].
+Definition set_add (m : Z) (s : list Z) : list Z := if existsb (Z.eqb m) s then s else s ++ [m].
 (* self.node_mapping[n].add(m) *)
-Fixpoint nb_add (n m : N) (g : nmap) : nmap :=
+Fixpoint nb_add (n m : Z) (g : nmap) : nmap :=
   match g with
   | [] => []
-  | (k, s) :: r => if N.eqb n k then (k, set_add m s) :: r else (k, s) :: nb_add n m r
+  | (k, s) :: r => if Z.eqb n k then (k, set_add m s) :: r else (k, s) :: nb_add n m r
   end.
 (* the node_mapping part of add_edge(n1, n2, _) *)
-Definition add_edge_nodes (n1 n2 : N) (g : nmap) : nmap := nb_add n1 n2 (add_node n2 (add_node n1 g)).
+Definition add_edge_nodes (n1 n2 : Z) (g : nmap) : nmap := nb_add n1 n2 (add_node n2 (add_node n1 g)).
 
 (* sum(len(edge_set) for edge_set in self.node_mapping.values()) *)
 Fixpoint num_stored (g : nmap) : N :=
@@ -56,8 +62,8 @@ Fixpoint num_stored (g : nmap) : N :=
   end.
 
 (* the order in which write visits the edges: nodes sorted, out-neighbours sorted *)
-Definition edge_keys (g : nmap) : list (N * N) :=
-  flat_map (fun n => map (pair n) (isort_N (nbrs g n))) (isort_N (keys g)).
+Definition edge_keys (g : nmap) : list (Z * Z) :=
+  flat_map (fun n => map (pair n) (isort_Z (nbrs g n))) (isort_Z (keys g)).
 
 (* line.startswith("#") *)
 Definition is_hash_line (line : text) : bool := startswith (lit "#") line.
@@ -67,7 +73,7 @@ Section Wmd.
   Variable show_w : W -> text.            (* "{}".format(weight) *)
   Variable read_w : text -> option W.     (* float(token); None = ValueError *)
 
-  Definition wtab := list ((N * N) * W).
+  Definition wtab := list ((Z * Z) * W).
 
   Record winst := mkW {
     w_meta : meta;                        (* the PrefLibInstance fields *)
@@ -77,18 +83,18 @@ Section Wmd.
   }.
 
   (* add_edge(node1, node2, weight) *)
-  Definition add_edge (n1 n2 : N) (w : W) (g : nmap * wtab) : nmap * wtab :=
+  Definition add_edge (n1 n2 : Z) (w : W) (g : nmap * wtab) : nmap * wtab :=
     (add_edge_nodes n1 n2 (fst g), assoc_set peqb (n1, n2) w (snd g)).
 
   (* ------------------------------------------------------------------------------------------ *)
   (* MatchingInstance.write                                                                       *)
   (* "{}, {}, {}\n".format(vertex1, vertex2, weight) *)
-  Definition edge_line (n m : N) (w : W) : text :=
-    show_N n ++ lit ", " ++ show_N m ++ lit ", " ++ show_w w ++ nl.
+  Definition edge_line (n m : Z) (w : W) : text :=
+    show_Z n ++ lit ", " ++ show_Z m ++ lit ", " ++ show_w w ++ nl.
 
   (* one written line per element of outgoing_edges(n); self.weights[(n, m)] of a stored neighbour
      without weight entry is a KeyError in Python — outside the domain (see wmd_write_ok) *)
-  Definition edge_text (wt : wtab) (k : N * N) : text :=
+  Definition edge_text (wt : wtab) (k : Z * Z) : text :=
     match assoc_get peqb k wt with
     | Some w => edge_line (fst k) (snd k) w
     | None => []
@@ -131,11 +137,11 @@ Section Wmd.
     end.
 
   (* (vertex1, vertex2, weight) = line.strip().replace(" ", "").split(",") ; int, int, float *)
-  Definition parse_edge_line (l : text) : result (N * N * W) :=
+  Definition parse_edge_line (l : text) : result (Z * Z * W) :=
     match split_on 44 (remove_sp (strip l)) with
     | [a; b; c] =>
-      rbind (py_int a) (fun n1 =>
-      rbind (py_int b) (fun n2 =>
+      rbind (py_int_Z a) (fun n1 =>
+      rbind (py_int_Z b) (fun n2 =>
       match read_w c with
       | Some w => Ok (n1, n2, w)
       | None => Err ValueErr
@@ -165,9 +171,9 @@ Section Wmd.
     else Err TypeErr.
 
   (* edges(): every stored neighbour with its weight *)
-  Definition all_edges (g : nmap) : list (N * N) :=
+  Definition all_edges (g : nmap) : list (Z * Z) :=
     flat_map (fun p => map (pair (fst p)) (snd p)) g.
-  Definition wedges (i : winst) : list ((N * N) * W) :=
+  Definition wedges (i : winst) : list ((Z * Z) * W) :=
     flat_map (fun k => match assoc_get peqb k (w_weights i) with Some w => [(k, w)] | None => [] end)
              (all_edges (w_nodes i)).
 End Wmd.
